@@ -16,8 +16,14 @@ pub(crate) struct CounterGuard {
 
 impl Drop for CounterGuard {
     fn drop(&mut self) {
+        #[cfg(eigerco_lumina_verif)]
+        crate::verif::yield_point("counter.drop.before_take");
         self.counter.take();
+        #[cfg(eigerco_lumina_verif)]
+        crate::verif::yield_point("counter.drop.between_take_and_notify");
         self.notify.notify_waiters();
+        #[cfg(eigerco_lumina_verif)]
+        crate::verif::yield_point("counter.drop.after_notify");
     }
 }
 
@@ -40,9 +46,17 @@ impl Counter {
     pub(crate) async fn wait_guards(&mut self) {
         let mut notified = pin!(self.notify.notified());
 
+        #[cfg(eigerco_lumina_verif)]
+        crate::verif::yield_point("counter.wait.after_first_notified");
         while Arc::strong_count(&self.counter) > 1 {
+            #[cfg(eigerco_lumina_verif)]
+            crate::verif::yield_point("counter.wait.after_check");
             notified.as_mut().await;
+            #[cfg(eigerco_lumina_verif)]
+            crate::verif::yield_point("counter.wait.after_wake");
             notified.set(self.notify.notified());
+            #[cfg(eigerco_lumina_verif)]
+            crate::verif::yield_point("counter.wait.after_renew");
         }
     }
 }
